@@ -25,7 +25,7 @@ for cfg in CFGS:
         cr = facts.load(dirs, cfg, fname, expect_hash=th)
         names.setdefault(cr.name, set()).update(cr.bodies.keys())
         key = "%s|%s|%s" % (cr.name, cfg, fname)
-        sigs[key] = {"fns": {}, "items": {}, "adts": {}}
+        sigs[key] = {"fns": {}, "items": {}, "adts": {}, "types": {}}
         for k, b in cr.bodies.items():
             if "{closure" in k:
                 continue
@@ -34,6 +34,7 @@ for cfg in CFGS:
             elif (b.get("dk") or "").startswith(("Const", "Static", "AssocConst")) and "hir" in b:
                 sigs[key]["items"][k] = facts.item_fingerprint(b)
         for k, a in cr.adts.items():
+            sigs[key]["types"][k] = [a.get("kind"), [v.get("name") for v in a.get("variants") or []]]
             if a.get("kind") == "Struct" and a.get("variants"):
                 sigs[key]["adts"][k] = [[f.get("name"), f.get("ty")] for f in a["variants"][0].get("fields") or []]
 path = os.path.join(facts.VERIF, "refs", "known_fns.json")
